@@ -581,7 +581,8 @@ func (e *Engine) DataHandler(c *nbio.Conn, data []byte) {
 			logging.Error("execute ParserCloser failed: %v\n%v\n", err, *(*string)(unsafe.Pointer(&buf)))
 		}
 	}()
-	readerCloser := c.Session().(ParserCloser)
+	// the session may have been cleared meanwhile (a failed upgrade).
+	readerCloser, _ := c.Session().(ParserCloser)
 	if readerCloser == nil {
 		logging.Error("nil ParserCloser")
 		return
@@ -605,7 +606,8 @@ func (e *Engine) TLSDataHandler(c *nbio.Conn, data []byte) {
 			logging.Error("execute ParserCloser failed: %v\n%v\n", err, *(*string)(unsafe.Pointer(&buf)))
 		}
 	}()
-	parserCloser := c.Session().(ParserCloser)
+	// the session may have been cleared meanwhile (a failed upgrade).
+	parserCloser, _ := c.Session().(ParserCloser)
 	if parserCloser == nil {
 		logging.Error("nil ParserCloser")
 		_ = c.Close()
